@@ -3,7 +3,9 @@ package main
 import (
 	"fmt"
 	"go/types"
+	"reflect"
 	"strconv"
+	"strings"
 
 	"golang.org/x/tools/go/ssa"
 	"gopkg.in/yaml.v3"
@@ -162,7 +164,24 @@ func (e *Engine) yamlIntrinsic(fn *ssa.Function, full string, args []Value) (Val
 			return e.newError(mkStr("yaml: marshal error")), true
 		}
 		return IfaceVal{}, true
+	case "gopkg.in/yaml.v3.Marshal":
+		root, failed := e.yamlMarshal(args[0].(IfaceVal))
+		if failed {
+			return TupleVal{SliceVal{}, e.newError(mkStr("yaml: marshal error"))}, true
+		}
+		return TupleVal{YBytes{root: root}, IfaceVal{}}, true
 	case "gopkg.in/yaml.v3.Unmarshal":
+		if yb, ok := args[0].(YBytes); ok {
+			// a YAML document produced by yaml.Marshal: the parser returns its node tree
+			outI := args[1].(IfaceVal)
+			out, ok := outI.val.(PtrVal)
+			if !ok || out.slot == nil || !types.Identical(outI.typ.Underlying().(*types.Pointer).Elem(), e.yamlNodeType()) {
+				unsupported("yaml.Unmarshal into %v", outI.typ)
+			}
+			doc := e.newYAMLNode(yDocumentNode, "", StrVal{}, []Value{e.copyYAMLTree(yb.root, 0)})
+			assign(out.slot, *doc.slot)
+			return IfaceVal{}, true
+		}
 		// JSON bytes read as YAML: build the node graph for the data model.
 		tree := e.bytesToJ(args[0])
 		outI := args[1].(IfaceVal)
@@ -318,4 +337,313 @@ func (e *Engine) resolvePlainScalar(val StrVal) IfaceVal {
 		}
 	}
 	return IfaceVal{typ: types.Typ[types.String], val: val}
+}
+
+// ---------------------------------------------------------------------------
+// yaml.Marshal on the node data model (yaml.v3's documented encoder dispatch:
+// *Node, Marshaler, then by kind; struct fields by yaml tags with omitempty /
+// IsZeroer, inline structs flattened, inline map appended and checked for
+// conflicts). The result is a node tree; scalar spelling and quoting are the
+// library's and are not modelled (every string is a !!str scalar).
+
+// YBytes is the engine value of a []byte holding a YAML document.
+type YBytes struct{ root PtrVal }
+
+type yamlFail struct{ msg string }
+
+func (e *Engine) yamlMarshal(iv IfaceVal) (root PtrVal, failed bool) {
+	defer func() {
+		if r := recover(); r != nil {
+			if _, ok := r.(yamlFail); ok {
+				failed = true
+				return
+			}
+			panic(r)
+		}
+	}()
+	return e.toY(types.NewInterfaceType(nil, nil), iv, 0), false
+}
+
+func (e *Engine) yNull() PtrVal { return e.newYAMLNode(yScalarNode, "!!null", mkStr("null"), nil) }
+
+func (e *Engine) yamlIsZero(t types.Type, v Value) bool {
+	if m := e.findMethod(t, "IsZero"); m != nil && m.Signature.Params().Len() == 0 {
+		if p, ok := v.(PtrVal); ok && p.slot == nil {
+			return true
+		}
+		if iv, ok := v.(IfaceVal); ok && iv.typ == nil {
+			return true
+		}
+		recv := v
+		if _, isPtr := m.Signature.Recv().Type().Underlying().(*types.Pointer); !isPtr {
+			if p, ok := v.(PtrVal); ok {
+				recv = copyVal(*p.slot)
+			}
+		}
+		return e.decide(e.call(m, []Value{recv}).(*Term))
+	}
+	switch x := v.(type) {
+	case StrVal:
+		return len(x.bytes) == 0 && x.atom == nil
+	case IfaceVal:
+		return x.typ == nil
+	case PtrVal:
+		return x.slot == nil
+	case SliceVal:
+		return x.len == 0
+	case MapVal:
+		return x.m == nil || len(x.m.entries) == 0
+	case *Term:
+		if x.isBool {
+			return !e.decide(x)
+		}
+		return e.decide(tEq(x, mkInt(0)))
+	case FloatVal:
+		return x.f == 0
+	case *StructVal:
+		st := t.Underlying().(*types.Struct)
+		for i := 0; i < st.NumFields(); i++ {
+			if !st.Field(i).Exported() {
+				continue
+			}
+			if !e.yamlIsZero(st.Field(i).Type(), x.fields[i]) {
+				return false
+			}
+		}
+		return true
+	}
+	return false
+}
+
+type yField struct {
+	key       string
+	omitEmpty bool
+	path      []int // field index path (through inline structs)
+}
+
+// yamlStructInfo mirrors yaml.v3's getStructInfo.
+func (e *Engine) yamlStructInfo(st *types.Struct) (fields []yField, inlineMap int) {
+	inlineMap = -1
+	for i := 0; i < st.NumFields(); i++ {
+		f := st.Field(i)
+		if !f.Exported() && !f.Embedded() {
+			continue
+		}
+		rawTag := st.Tag(i)
+		tag := reflect.StructTag(rawTag).Get("yaml")
+		if tag == "" && !strings.Contains(rawTag, ":") {
+			tag = rawTag
+		}
+		if tag == "-" {
+			continue
+		}
+		inline, omit := false, false
+		parts := strings.Split(tag, ",")
+		for _, fl := range parts[1:] {
+			switch fl {
+			case "omitempty":
+				omit = true
+			case "inline":
+				inline = true
+			case "flow":
+			default:
+				unsupported("yaml tag flag %q", fl)
+			}
+		}
+		tag = parts[0]
+		if inline {
+			ft := f.Type()
+			switch u := ft.Underlying().(type) {
+			case *types.Map:
+				inlineMap = i
+			default:
+				for {
+					p, ok := ft.Underlying().(*types.Pointer)
+					if !ok {
+						break
+					}
+					ft = p.Elem()
+				}
+				ist, ok := ft.Underlying().(*types.Struct)
+				if !ok {
+					unsupported("yaml inline on %v", u)
+				}
+				sub, subInline := e.yamlStructInfo(ist)
+				if subInline >= 0 {
+					unsupported("yaml inline map inside inline struct")
+				}
+				for _, sf := range sub {
+					fields = append(fields, yField{key: sf.key, omitEmpty: sf.omitEmpty, path: append([]int{i}, sf.path...)})
+				}
+			}
+			continue
+		}
+		key := tag
+		if key == "" {
+			key = strings.ToLower(f.Name())
+		}
+		fields = append(fields, yField{key: key, omitEmpty: omit, path: []int{i}})
+	}
+	return fields, inlineMap
+}
+
+func (e *Engine) toY(t types.Type, v Value, depth int) PtrVal {
+	if depth > 40 {
+		unsupported("yaml.Marshal nesting too deep")
+	}
+	nodeT := e.yamlNodeType()
+	if isIfaceType(t) {
+		iv := v.(IfaceVal)
+		if iv.typ == nil {
+			return e.yNull()
+		}
+		if iv.typ == e.sh.marks.fmtErr || iv.typ == e.sh.marks.opaque || iv.typ == e.sh.marks.rtype {
+			unsupported("yaml.Marshal of engine-native value")
+		}
+		return e.toY(iv.typ, iv.val, depth+1)
+	}
+	if p, ok := v.(PtrVal); ok && p.slot == nil {
+		if _, isPtr := t.Underlying().(*types.Pointer); isPtr {
+			return e.yNull()
+		}
+	}
+	if types.Identical(t, types.NewPointer(nodeT)) {
+		return v.(PtrVal)
+	}
+	if m := e.findMethod(t, "MarshalYAML"); m != nil {
+		recv := v
+		if _, isPtr := m.Signature.Recv().Type().Underlying().(*types.Pointer); !isPtr {
+			if p, ok := v.(PtrVal); ok {
+				recv = copyVal(*p.slot)
+			}
+		}
+		res := e.call(m, []Value{recv}).(TupleVal)
+		if errv := res[1].(IfaceVal); errv.typ != nil {
+			panic(yamlFail{"MarshalYAML returned an error"})
+		}
+		out := res[0].(IfaceVal)
+		if out.typ == nil {
+			return e.yNull()
+		}
+		return e.toY(out.typ, out.val, depth+1)
+	}
+	switch u := t.Underlying().(type) {
+	case *types.Pointer:
+		return e.toY(u.Elem(), *v.(PtrVal).slot, depth+1)
+	case *types.Map:
+		mv := v.(MapVal)
+		content := []Value{}
+		if mv.m != nil {
+			// member order of Go-map-backed mappings is not order-significant; insertion order is kept
+			for _, en := range mv.m.entries {
+				content = append(content, e.toY(u.Key(), en.key, depth+1), e.toY(u.Elem(), en.val, depth+1))
+			}
+		}
+		return e.newYAMLNode(yMappingNode, "!!map", StrVal{}, content)
+	case *types.Slice:
+		content := []Value{}
+		for _, x := range sliceElems(v.(SliceVal)) {
+			content = append(content, e.toY(u.Elem(), x, depth+1))
+		}
+		return e.newYAMLNode(ySequenceNode, "!!seq", StrVal{}, content)
+	case *types.Struct:
+		sv := v.(*StructVal)
+		fields, inlineMap := e.yamlStructInfo(u)
+		content := []Value{}
+		keys := map[string]bool{}
+		for _, f := range fields {
+			keys[f.key] = true
+			ft, fv, ok := e.yamlFieldByPath(t, sv, f.path)
+			if !ok {
+				continue
+			}
+			if f.omitEmpty && e.yamlIsZero(ft, fv) {
+				continue
+			}
+			content = append(content, e.newYAMLNode(yScalarNode, "!!str", mkStr(f.key), nil), e.toY(ft, fv, depth+1))
+		}
+		if inlineMap >= 0 {
+			mt := u.Field(inlineMap).Type().Underlying().(*types.Map)
+			mv := sv.fields[inlineMap].(MapVal)
+			if mv.m != nil {
+				for _, en := range mv.m.entries {
+					ks := en.key.(StrVal)
+					for k := range keys {
+						if e.decide(strEq(ks, mkStr(k))) {
+							e.goPanic("yaml: cannot have key \"" + k + "\" in inlined map: conflicts with struct field")
+						}
+					}
+					content = append(content, e.newYAMLNode(yScalarNode, "!!str", ks, nil), e.toY(mt.Elem(), en.val, depth+1))
+				}
+			}
+		}
+		return e.newYAMLNode(yMappingNode, "!!map", StrVal{}, content)
+	case *types.Basic:
+		switch {
+		case u.Info()&types.IsString != 0:
+			return e.newYAMLNode(yScalarNode, "!!str", v.(StrVal), nil)
+		case u.Info()&types.IsBoolean != 0:
+			if e.decide(v.(*Term)) {
+				return e.newYAMLNode(yScalarNode, "!!bool", mkStr("true"), nil)
+			}
+			return e.newYAMLNode(yScalarNode, "!!bool", mkStr("false"), nil)
+		case u.Info()&types.IsInteger != 0:
+			tv := v.(*Term)
+			if !tv.konst {
+				unsupported("yaml.Marshal of symbolic integer")
+			}
+			return e.newYAMLNode(yScalarNode, "!!int", mkStr(strconv.FormatInt(tv.iv, 10)), nil)
+		case u.Info()&types.IsFloat != 0:
+			f := v.(FloatVal).f
+			if f == float64(int64(f)) {
+				// yaml.v3 prints 5.0 as "5", which re-reads as an int of the same value
+				return e.newYAMLNode(yScalarNode, "!!int", mkStr(strconv.FormatInt(int64(f), 10)), nil)
+			}
+			return e.newYAMLNode(yScalarNode, "!!float", mkStr(strconv.FormatFloat(f, 'g', -1, 64)), nil)
+		}
+	}
+	unsupported("yaml.Marshal of %v", t)
+	return PtrVal{}
+}
+
+func (e *Engine) yamlFieldByPath(t types.Type, sv *StructVal, path []int) (types.Type, Value, bool) {
+	cur := Value(sv)
+	ct := t
+	for _, ix := range path {
+		for {
+			p, isPtr := ct.Underlying().(*types.Pointer)
+			if !isPtr {
+				break
+			}
+			pv := cur.(PtrVal)
+			if pv.slot == nil {
+				return nil, nil, false
+			}
+			cur, ct = *pv.slot, p.Elem()
+		}
+		st := ct.Underlying().(*types.Struct)
+		cur, ct = cur.(*StructVal).fields[ix], st.Field(ix).Type()
+	}
+	return ct, cur, true
+}
+
+// copyYAMLTree: re-parsing a document yields fresh nodes (no sharing with the
+// tree that was marshalled).
+func (e *Engine) copyYAMLTree(n PtrVal, depth int) PtrVal {
+	if n.slot == nil || depth > 60 {
+		return n
+	}
+	nt := e.yamlNodeType()
+	src := (*n.slot).(*StructVal)
+	cp := copyVal(src).(*StructVal)
+	if c, ok := (*structField(nt, src, "Content")).(SliceVal); ok && c.arr != nil {
+		kids := []Value{}
+		for _, k := range sliceElems(c) {
+			kids = append(kids, e.copyYAMLTree(k.(PtrVal), depth+1))
+		}
+		*structField(nt, cp, "Content") = mkSlice(kids)
+	}
+	slot := new(Value)
+	*slot = cp
+	return PtrVal{slot}
 }
